@@ -285,7 +285,7 @@ def _gen_sq_init(w, rng):
         args["outputfile"] = out
         if rng.random() < 0.3:
             args["saveqvectors"] = True
-    return {"args": args, "meta": {"K": t["K"], "outputfile": out, "snaps": t["bundle"]}}
+    return {"args": args, "meta": {"K": t["K"], "outputfile": out, "snaps": t["bundle"], "saveqvectors": bool(args.get("saveqvectors"))}}
 
 
 Ctor("sq.init", "sq", "static.sq.sq", "sq", gen=_gen_sq_init, faultable=False)
@@ -299,8 +299,32 @@ def _gen_sq_method(name):
     return gen
 
 
+def _files_sq(w, op, res):
+    import pandas as pd
+    tag = w.pool[op["obj"]].tag
+    p = tag.get("outputfile")
+    if not p:
+        return []
+    out = [(p, res, "csv:6")]
+    if tag.get("saveqvectors"):
+        def derived(path):
+            # the per-wave-vector file, averaged over equal |q|, must give the returned table
+            per = pd.read_csv(path, float_precision="round_trip")
+            cols = [c for c in res.columns if c != "q"]
+            if not all(c in per.columns for c in cols + ["q"]):
+                return f"columns {list(per.columns)} lack {cols}"
+            g = per[cols].groupby(per["q"].round(6)).mean().reset_index()
+            if len(g) != len(res):
+                return f"{len(g)} distinct wave numbers in the file, {len(res)} returned"
+            d = float(np.max(np.abs(g[cols].to_numpy() - res[cols].to_numpy()))) if len(g) else 0.0
+            dq = float(np.max(np.abs(g["q"].to_numpy() - res["q"].to_numpy()))) if len(g) else 0.0
+            return None if d <= 1.5e-6 and dq <= 1.5e-6 else f"group means differ from the returned table by {d:.3g} (q by {dq:.3g})"
+        out.append((p[:-4] + "_qvectors.csv", derived, "csv-derived"))
+    return out
+
+
 for _name in ["getresults"] + list(GR_METHODS.values()):
-    Method(f"sq.{_name}", "sq", f"static.sq.sq.{_name}", "sq", _name, gen=_gen_sq_method(_name), files=_csv_of_obj("csv:6"))
+    Method(f"sq.{_name}", "sq", f"static.sq.sq.{_name}", "sq", _name, gen=_gen_sq_method(_name), files=_files_sq)
 
 
 def _gen_conditional_sq(w, rng):
